@@ -49,7 +49,7 @@ FA = "sqllineage.core.parser.sqlfluff.analyzer.SqlFluffLineageAnalyzer."
 CONTRACTS = [
     Contract(
         "sqllineage.utils.helpers.split",
-        props=["C05", "C10"],
+        props=["C05", "C10", "C07"],
         requires={
             # definition of the ghost function kept_count(sql, i) = number of kept pieces among the first i (a conservative extension)
             "ghost_kept_count_base": "kept_count(sql, 0) == 0",
